@@ -82,6 +82,16 @@ prop("C18", True,
      "load/store pairing by key + dominating-condition extraction + CFG ordering (reachability between stores) + who-may-create rule over go/ssa",
      "DESIGN.md §2 C18")
 
+prop("C20", True,
+     "Static check of the port-scan grouping mechanism for all bursts/interleavings: every send on the knock queue is satisfiable (no atom in both polarities among its dominating conditions, pure helpers inlined) "
+     "and each of the three probe kinds has a send site with source/destination roles from the packet; UniqueSet.Add returns the matched existing element or appends after a full scan, Remove cuts exactly the identical "
+     "element, no UniqueSet field is maintained by only one of Add/Remove (no stale caches), Each iterates over a private copy or no callback (incl. deferred calls) mutates the iterated set; sibling NewGroup constructors "
+     "set the same KnockGroup fields with distinct protocol constants and type-guarded element equality on the destination port; group equality is the conjunction of protocol, both hardware and both IP addresses; the port "
+     "list is sized by Count and labelled per knock type. Timers (5 s / 60 s, what constitutes one burst) are not decided.",
+     "Timer behaviour and channel scheduling are not analysed.",
+     "condition-contradiction (dead send) detection + sibling-constructor cross-check + iterator-invalidation rule + shape rules over go/ssa",
+     "DESIGN.md §2 C20")
+
 PENDING = {
  "C01": "check not built yet in this revision (design: DESIGN.md §2 C01)",
 }
